@@ -1,7 +1,7 @@
 //! Helpers shared by the property modules: the model differential and small utilities.
 
 use crate::imp::{self, Out, Traced};
-use crate::model::{self, Ctx, Res};
+use crate::model::{self, coerce, Ctx, Res};
 use crate::runner::Obs;
 use serde_json::{json, Value};
 
@@ -313,4 +313,74 @@ pub fn sweep_cases(kinds: u64, max_w: usize) -> Vec<Value> {
         }
     }
     out
+}
+
+// ------------------------------------------------------------------------------------------------ per-element law
+
+/// An expression used as the body of map / filter / all / some / none over several elements must behave, element by
+/// element, exactly like the expression applied to that element alone (model-free).  Shared machinery that remembers
+/// anything from one element to the next - a memoised operand, a cached key, a "constant" sub-expression - breaks this.
+pub fn per_element_law(case: &Value, obs: &mut Obs) -> Result<(), String> {
+    let expr = &case["expr"];
+    let elements: Vec<Value> = case["elements"].as_array().cloned().unwrap_or_default();
+    if elements.is_empty() {
+        return Ok(());
+    }
+    for e in &elements {
+        if let (Res::Unspec("over_budget"), _) = model::eval(expr, e) {
+            obs.skip("over_budget");
+            return Ok(());
+        }
+    }
+    let mut singles: Vec<Option<Value>> = vec![];
+    let mut logs = false;
+    for e in &elements {
+        let (v, lines) = run_traced(expr, e, obs)?;
+        logs |= !lines.is_empty();
+        singles.push(v);
+    }
+    let data = json!({"xs": elements});
+    let coll = json!({"var": "xs"});
+    let mapped = run(&json!({"map": [coll, expr]}), &data, obs)?;
+    let first_err = singles.iter().position(|s| s.is_none());
+    match first_err {
+        Some(_) => {
+            if let Some(v) = mapped {
+                return Err(format!("the expression fails on one of the elements alone, yet map over them succeeds with {}: expression {} elements {}", v, expr, data["xs"]));
+            }
+        }
+        None => {
+            let want = Value::Array(singles.iter().map(|s| s.clone().unwrap()).collect());
+            match &mapped {
+                Some(got) if model::identical(got, &want) => {}
+                other => return Err(format!("map must give, element by element, what the expression gives on each element alone: expected {} got {:?} for expression {} over {}", want, other.as_ref().map(|v| v.to_string()), expr, data["xs"])),
+            }
+            let verdicts: Vec<bool> = singles.iter().map(|s| coerce::truthy(s.as_ref().unwrap())).collect();
+            let kept = Value::Array(elements.iter().zip(verdicts.iter()).filter(|(_, t)| **t).map(|(e, _)| e.clone()).collect());
+            match run(&json!({"filter": [coll, expr]}), &data, obs)? {
+                Some(got) if model::identical(&got, &kept) => {}
+                other => return Err(format!("filter must keep exactly the elements on which the expression alone is truthy: expected {} got {:?} for expression {} over {}", kept, other.map(|v| v.to_string()), expr, data["xs"])),
+            }
+            if !logs {
+                for (op, want) in [("all", verdicts.iter().all(|t| *t)), ("some", verdicts.iter().any(|t| *t)), ("none", !verdicts.iter().any(|t| *t))] {
+                    match run(&json!({op: [coll, expr]}), &data, obs)? {
+                        Some(Value::Bool(b)) if b == want => {}
+                        other => return Err(format!("{} must follow the expression's verdict on each element alone ({:?}): expected {} got {:?} for expression {} over {}", op, verdicts, want, other.map(|v| v.to_string()), expr, data["xs"])),
+                    }
+                }
+            }
+        }
+    }
+    let distinct = singles.iter().map(|s| s.as_ref().map(|v| v.to_string())).collect::<std::collections::BTreeSet<_>>().len();
+    if elements.len() >= 2 && distinct >= 2 {
+        obs.nt("the expression gives different results on different elements");
+    } else {
+        obs.class("same result on every element");
+    }
+    Ok(())
+}
+
+pub fn per_element_cases(expr: crate::gen::VS, element: crate::gen::VS) -> proptest::strategy::BoxedStrategy<Value> {
+    use proptest::strategy::Strategy;
+    (expr, proptest::collection::vec(element, 2..=5)).prop_map(|(e, xs)| json!({"expr": e, "elements": xs})).boxed()
 }
